@@ -264,7 +264,7 @@ func (c *Client) SearchLocksVerifiable(limit int, cached bool) (ourLocks, theirL
 			Limit: limit,
 		}
 
-		c.cache.Clear()
+		cacheCleared := false
 
 		for {
 			list, status, err := c.client.SearchVerifiable(c.Remote, body)
@@ -284,6 +284,15 @@ func (c *Client) SearchLocksVerifiable(limit int, cached bool) (ourLocks, theirL
 					tracerx.Printf("Server Request ID: %s", list.RequestID)
 				}
 				return ourLocks, theirLocks, errors.New(tr.Tr.Get("server error searching locks: %s", list.Message))
+			}
+
+			if !cacheCleared {
+				// Only forget what we know about locks once
+				// the server has actually told us what they are; a
+				// failed request must not leave us believing that
+				// there are no locks.
+				c.cache.Clear()
+				cacheCleared = true
 			}
 
 			for _, l := range list.Ours {
